@@ -326,6 +326,23 @@ pub fn large_policies() -> Vec<P> {
             out.push(P::Or(vec![(1, P::And(vec![key(1), P::Or(vec![(1, l1.clone()), (1, key(4))])])), (1, b2.clone())]));
         }
     }
+    // a branch carrying TWO locks of one unit next to a branch locked in the other unit (same kind),
+    // under even and strongly skewed odds: the compiler nests andor / and_v differently per odds and
+    // per context, and each nesting has its own time-lock bookkeeping
+    for (la, lb, lo) in [
+        (P::Older(1), P::Older(2), P::Older(4_194_305)),
+        (P::Older(4_194_305), P::Older(4_194_306), P::Older(1)),
+        (P::After(10), P::After(11), P::After(500_000_010)),
+        (P::After(500_000_010), P::After(500_000_011), P::After(10)),
+    ] {
+        let two = P::And(vec![P::And(vec![key(1), la.clone()]), lb.clone()]);
+        let two_r = P::And(vec![la.clone(), P::And(vec![key(1), lb.clone()])]);
+        let other = P::And(vec![key(2), lo.clone()]);
+        for (a, b) in [(1usize, 1usize), (10, 1), (1, 10), (100, 1), (1, 100)] {
+            out.push(P::Or(vec![(a, two.clone()), (b, other.clone())]));
+            out.push(P::Or(vec![(a, other.clone()), (b, two_r.clone())]));
+        }
+    }
     // or-chains / and-chains of five and six keys, left- and right-leaning, with skewed odds
     for n in [5usize, 6] {
         for (a, b) in [(1usize, 1usize), (9, 1), (1, 9)] {
